@@ -32,6 +32,23 @@ CLAIMS = {
          "Every field of every AST variant is printed; every trivia-carrying element a parser closure binds is moved, mapped or has its trivia read; elements bound to `_` "
          "consume constant text or nothing; swallow-all (`rest`) never occurs without a diagnostic; the file parser is all_consuming; case normalisation never touches "
          "trivia. Partitioning of arbitrary text by the trivia parsers is not decided.", "§4 C05"),
+ "C06": ("interprocedural label propagation (taint) over MIR to Assert/allocation/index/loop sinks, with dominating-guard discharge",
+         "Every integer the program text controls (literals, evaluated expressions, config values, SymbolData::Number) is followed, field-based and across calls, "
+         "to the panicking primitives of the shipped MIR: overflow/division/shift/negation asserts, allocation sizes, indices, loop trip counts; a site is discharged "
+         "only by a recognised dominating guard (non-zero switch, constant range check) or a tabled bound. Also: no unwrap on literal conversion, no user string "
+         "into the asserting Identifier constructor, a finite pass bound with a diagnostic, no unwrap/expect on Result<_, Diagnostics>. Absence of all panics, "
+         "stack depth and termination of arbitrary programs are not decided.", "§4 C06"),
+ "C07": ("structural rules on typed HIR + must-pass-through on MIR",
+         "Decides the structural clauses only: polarity of `.if`, iteration domain and `index` binding of `.loop`, positional macro binding after the arity check, "
+         "fresh macro scope, balanced scope/dummy-segment push-pop on every path, and that per-block symbol insertions are not allowed to fail silently. "
+         "Equivalence with the hand expansion on concrete programs is not decided.", "§4 C07"),
+ "C08": ("grammar extraction from nom combinators: terminal case and trivia-wrapper rules",
+         "Every terminal containing a letter is matched case-insensitively; every terminal is reachable only behind a trivia wrapper unless tabled; text kept from a "
+         "case-insensitive keyword is never compared case-sensitively. Equality of outputs for concrete layout variants is not decided.", "§4 C08"),
+ "C09": ("table agreement + container-type and shape rules on HIR/MIR",
+         "Config keys agree between validator, extractor and reference; banks and segments live in insertion-ordered containers and write_banks walks its Vec; the prg "
+         "header bytes and defaults have the documented shape; every documented error has a diagnostic and Ok is returned only without errors; no configured option is "
+         "overwritten without an absence test; the merge places segments at (start − bank start) with min/max ranges. Offsets on concrete configurations are not decided.", "§4 C09"),
 }
 
 NA = {
@@ -58,7 +75,7 @@ m = {
  "setup_cmd": "cd engine/mosfacts && cargo +nightly build --release --offline && cd ../.. && python3 -m compileall -q rules check && ./check --warm",
  "hooks": {"guard": "datatrash_mos_verif",
            "enable": "none needed: static analysis reads the source through the compiler front end (cargo +nightly check with the mosfacts driver as RUSTC_WORKSPACE_WRAPPER); no instrumentation is compiled into mos",
-           "baseline_off_cmd": "cd /repo && cargo test --workspace --no-fail-fast --offline",
+           "baseline_off_cmd": "cd /repo && (cargo nextest run --workspace --no-fail-fast --tool-config-file pb:/w/lib/nextest.toml --profile pb --test-threads 8 --offline || cargo test --workspace --no-fail-fast --offline)",
            "source_commits": [], "add_only": True},
  "engines": [
    {"name": "mosfacts", "path": "engine/mosfacts", "serves_properties": sorted(CLAIMS), "kind_free_text": "rustc_private driver (nightly): dumps ADTs, impls, typed path-resolved HIR bodies and MIR bodies with resolved callees as JSON facts per crate"},
